@@ -498,7 +498,7 @@ func init() {
 		ID:    "C18",
 		Level: "model_checking",
 		Rule: "real servers with the allocator on, under the cooperative scheduler, on pipelined programs whose expected responses are schedule independent (reads of distinct contents, writes to disjoint regions, commands): all schedules with at most d deviations; " +
-			"oracle: response bytes identical to the allocator-off run, page tables consistent after every scheduling step (no page lent twice / lent and free), at quiescence only the next receive buffer in use, nothing after Serve; plus (free-running) the program corpus with vs without allocator",
+			"oracle: response bytes identical to the allocator-off run, page tables consistent after every scheduling step (no page lent twice / lent and free), at quiescence only the next receive buffer in use, nothing after Serve; plus (free-running) the program corpus with vs without allocator; plus two servers built from one option list alive in the same execution, each session compared with itself served alone without allocator",
 		Assumptions: []string{"deviation and worker-count bounds as reported", "page-table invariant read at scheduling-step boundaries"},
 		Jobs: func(tier string) []reg.Job {
 			var js []reg.Job
